@@ -13,14 +13,14 @@ package wk
 //                                           scans again, removes everything it wrote (see rawRound).
 
 import (
-	"strings"
-	"runtime"
 	"bytes"
 	"crypto/sha1"
 	"encoding/binary"
 	"encoding/hex"
 	"encoding/json"
 	"fmt"
+	"runtime"
+	"strings"
 
 	"github.com/janelia-flyem/dvid/datastore"
 	"github.com/janelia-flyem/dvid/dvid"
